@@ -32,6 +32,8 @@ TRIVIA_VALUES = [True, False, 'all', 'block', 'none', 'all+', 'block+1', 'none-'
                  ('LN', 'block')]
 
 HAND_PROGRAMS = [
+    'if m == 1:\n    pass\nelif m == 2:  # bin\n    t = """multi\n  line\nstr"""\n    B = b"""\\x00h\n  payload\ntail"""  # tc\n    n = len(B)\nelse:\n    r = rb\'\'\'q\n  w\'\'\'\n',
+    'def f(x):\n    if x:\n        a = 1  # path C:\\tmp\\\n        b = 2\n        #   /  \\\n        c = 3\n    elif y:\n        d = b\'1\\\n  2\'\n    return a\n',
     'def f():\n    a = 1  # ta\n\n    # lead b1\n\n    # lead b2\n    b = 2  # tb\n    # trail b\n\n    # pre c\n    c = 3\n',
     'x = [a,  # ca\n     b,  # cb\n     # own line\n     c]\n',
     'if a:  # ha\n    x  # cx\n    # after x\nelif b:  # hb\n    y  # cy\nelse:  # he\n    # pre z\n    z  # cz\n# end\n',
@@ -42,12 +44,22 @@ HAND_PROGRAMS = [
     'import a, b, c  # imp\nfrom m import (x,  # cx\n               y,  # cy\n               z)\ndel p, q, r  # del\n',
     'with a as b, c as d:  # w\n    pass  # p\nmatch v:  # m\n    case [p1,  # c1\n          p2,  # c2\n          p3]:  # c3\n        pass\n',
     'def g():\n    """Doc\n\n    text\n    """\n    s = """multi\n  line\n"""  # cs\n    # pre t\n    t = 1  # ct\n    return s  # r\n',
+    'r = y[c,  # c2\n      # own\n      d, e]\nq = [z for c,  # cc\n     d in e]\n',
     't = (a,  # ca\n     # block 1\n     # block 2\n     b,  # cb\n\n     # lone\n\n     c,  # cc\n     )\n',
 ]
 
 
 def toks(src):
     return list(tokenize.generate_tokens(io.StringIO(src).readline))
+
+
+_TC = [None, None]
+
+
+def _toks_cached(src):
+    if _TC[0] != src:
+        _TC[0], _TC[1] = src, toks(src)
+    return _TC[1]
 
 
 def renumber_comments(src):
@@ -62,7 +74,8 @@ def renumber_comments(src):
     for k in range(len(cs) - 1, -1, -1):
         t = cs[k]
         l = lines[t.start[0] - 1]
-        lines[t.start[0] - 1] = l[:t.start[1]] + f'# c{k}' + ('é' if k % 7 == 3 else '') + l[t.end[1]:]
+        tail = 'é' if k % 7 == 3 else ' C:\\tmp\\' if k % 5 == 1 else '   /  \\' if k % 11 == 4 else ''
+        lines[t.start[0] - 1] = l[:t.start[1]] + f'# c{k}' + tail + l[t.end[1]:]
     new = '\n'.join(lines)
     try:
         if ast.dump(ast.parse(new)) != ref:
@@ -104,7 +117,7 @@ def _char_col(line, byte_off):
     return len(line.encode()[:byte_off].decode(errors='ignore'))
 
 
-def analyse(src, s, e, kind, op, trivia, compound, extra_lines=(), extra_seps=()):
+def analyse(src, s, e, kind, op, trivia, compound, extra_lines=(), extra_seps=(), allow_pos=()):
     """-> (protected token list [(string, is_comment)], touched line set) for an element with char span s..e
     ((line0, col) pairs; s == e for an insertion point that lies in the gap between two neighbours)."""
     lead_mode, trail_mode = parse_trivia(trivia)
@@ -115,7 +128,7 @@ def analyse(src, s, e, kind, op, trivia, compound, extra_lines=(), extra_seps=()
     inside = [i for i, t in enumerate(T) if t[2] >= s and t[3] <= e and s != e]
     before = [i for i, t in enumerate(T) if t[3] <= s and i not in inside]
     after = [i for i, t in enumerate(T) if t[2] >= e and i not in inside]
-    allowed = set(inside)
+    allowed = set(inside) | {i for i, t in enumerate(T) if t[2] in allow_pos}
     # walk back over the gap: comments and separators until the previous code token
     gap_b, gap_a = [], []
     for i in reversed(before):
@@ -200,11 +213,12 @@ def analyse(src, s, e, kind, op, trivia, compound, extra_lines=(), extra_seps=()
     return protected, touched, lo, hi
 
 
-def judge(src, new_src, s, e, kind, op, trivia, compound, new_comments=(), extra_lines=(), extra_seps=()):
+def judge(src, new_src, s, e, kind, op, trivia, compound, new_comments=(), extra_lines=(), extra_seps=(), first_undelim_gap=None,
+          allow_pos=(), reindent=False, new_literals=()):
     """-> list of violations [{'cls', 'what', 'detail'}]"""
     out = []
     try:
-        protected, touched, lo, hi = analyse(src, s, e, kind, op, trivia, compound, extra_lines, extra_seps)
+        protected, touched, lo, hi = analyse(src, s, e, kind, op, trivia, compound, extra_lines, extra_seps, allow_pos)
         A = [(t.string, t.type == tokenize.COMMENT) for t in toks(new_src) if t.type not in NONSIG]
     except (tokenize.TokenError, SyntaxError, IndentationError):
         return None
@@ -222,9 +236,19 @@ def judge(src, new_src, s, e, kind, op, trivia, compound, new_comments=(), extra
                                     ('changed its order relative to other tokens' if present else 'is lost'),
                             'detail': st})
             else:
-                out.append({'cls': 'token-lost', 'what': f'token {st!r} outside the edited element is lost or reordered', 'detail': st})
+                if '\n' in st and st.lstrip('rbfuRBFU')[:1] in ('"', "'"):
+                    out.append({'cls': 'literal-changed', 'what': f'multi-line literal {st[:40]!r} outside the edited element was rewritten', 'detail': st})
+                else:
+                    out.append({'cls': 'token-lost', 'what': f'token {st!r} outside the edited element is lost or reordered', 'detail': st})
             break
         j = k + 1
+    if first_undelim_gap is not None:
+        # deleting the first element of an undelimited tuple (subscript index, comprehension / for target): comments between
+        # the element and the next one get their own narrow class
+        cpos = {t.string: (t.start[0] - 1, t.start[1]) for t in toks(src) if t.type == tokenize.COMMENT}
+        for v in out:
+            if v['cls'] == 'comment-lost' and s <= cpos.get(v['detail'], (-1, -1)) < first_undelim_gap:
+                v['cls'] = 'comment-lost@first-of-undelimited-tuple'
     # no comment duplicated (comment texts are unique in the input)
     seen = {}
     for st, isc in A:
@@ -235,6 +259,15 @@ def judge(src, new_src, s, e, kind, op, trivia, compound, new_comments=(), extra
         if n > 1 and st in before_comments and st not in new_comments:
             out.append({'cls': 'comment-duplicated', 'what': f'comment {st!r} appears {n} times after the edit', 'detail': st})
             break
+    # multi-line string / bytes literals of the NEW code (not docstrings) arrive byte for byte: indenting the new code must not
+    # touch the lines inside them
+    astr = {a[0] for a in A}
+    for lit in new_literals:
+        if lit not in astr:
+            out.append({'cls': 'new-literal-changed', 'what': f'multi-line literal {lit[:40]!r} of the put code was rewritten', 'detail': lit})
+            break
+    if reindent:        # the edit legitimately re-indents a neighbouring block (elif <-> else: if): tokens only
+        return out
     # (2) lines
     bl = src.split('\n')
     al = new_src.split('\n')
@@ -246,17 +279,20 @@ def judge(src, new_src, s, e, kind, op, trivia, compound, new_comments=(), extra
         while k < len(nb_after) and nb_after[k] != bl[i]:
             k += 1
         if k == len(nb_after):
-            out.append({'cls': 'line-changed', 'what': f'line {i} {bl[i]!r} does not touch the edit but is not preserved byte for byte in order',
+            cls = 'line-changed'
+            if first_undelim_gap is not None and s[0] <= i <= first_undelim_gap[0] and bl[i].strip().startswith('#'):
+                cls = 'line-changed@first-of-undelimited-tuple'
+            out.append({'cls': cls, 'what': f'line {i} {bl[i]!r} does not touch the edit but is not preserved byte for byte in order',
                         'detail': [i, bl[i]]})
             break
         j = k + 1
     head = [i for i in prot_idx if i < lo]
     tail = [i for i in prot_idx if i > hi]
-    if head and not any(v['cls'] == 'line-changed' for v in out):
+    if head and not any(v['cls'].startswith('line-changed') for v in out):
         h = head[-1] + 1
         if al[:h] != bl[:h]:
             out.append({'cls': 'far-blank-lines', 'what': f'lines before line {h} (not adjacent to the edit) changed', 'detail': [h]})
-    if tail and not any(v['cls'] in ('line-changed', 'far-blank-lines') for v in out):
+    if tail and not any(v['cls'].startswith('line-changed') or v['cls'] == 'far-blank-lines' for v in out):
         t = tail[0]
         n = len(bl) - t
         if al[len(al) - n:] != bl[t:]:
@@ -276,6 +312,39 @@ COMPOUND = (ast.If, ast.For, ast.While, ast.Try, ast.With, ast.FunctionDef, ast.
 NEW_STMTS = ['zz = 9  # new1', 'if nn:  # new2\n    pass  # new3', 'def nf():  # new4\n    """Doc\n    more"""\n    return 1', 'nn()',
              '# newlead\nzz = 8']
 NEW_EXPRS = ['zz', 'nf(1)', '(zz)']
+NEW_STMTS += ['nb = b"""\\x00h\n  two\ntail"""  # new5', 'if nn:  # new2\n    ns = """a\n  b\nc"""\n    nb = b\'\'\'x\n  y\'\'\'  # new6',
+              "ns = 'a\\\n  b'  # new7"]
+
+LITERALS = ['blob{k} = b"""\\x00head\n  two-space payload\ntail"""', "txt{k} = \'\'\'multi\n  line\n\'\'\'", 'raw{k} = rb"""a\\n\n    b"""',
+            "cont{k} = b'one\\\n  two'", 'fs{k} = f"""a{{x}}\n  b"""']
+
+
+def inject_literals(src, rng, p=0.5):
+    """insert assignments of multi-line str / bytes literals in front of random statements (any block depth)"""
+    if rng.random() > p:
+        return src
+    cur = src
+    for k in range(rng.randint(1, 3)):
+        try:
+            ts = toks(cur)
+        except Exception:
+            return cur
+        starts = sorted({t.end[0] for t in ts if t.type == tokenize.NEWLINE} | {0})
+        lines = cur.split('\n')
+        cand = [i for i in starts if i < len(lines) and lines[i].strip() and not lines[i].lstrip().startswith(('#', 'elif', 'else', 'except', 'finally', 'case', '@', 'def ', 'class ', 'async '))]
+        rng.shuffle(cand)
+        for i in cand[:6]:
+            ind = lines[i][:len(lines[i]) - len(lines[i].lstrip())]
+            lit = rng.choice(LITERALS).format(k=k)
+            new = '\n'.join(lines[:i] + [ind + lit + rng.choice(['', '  # lit'])] + lines[i:])
+            try:
+                ast.parse(new)
+            except Exception:
+                continue
+            cur = new
+            break
+    return cur
+
 
 
 def _path(tree, node):
@@ -304,16 +373,11 @@ def _span(lines, n, toklist=None):
     if getattr(n, 'decorator_list', None):
         d = n.decorator_list[0]
         sl, sc = d.lineno - 1, d.col_offset
-        # the `@` before the decorator expression
-        pre = lines[sl].encode()[:sc].decode(errors='ignore').rstrip()
-        if pre.endswith('@'):
-            sc = len(pre[:-1].encode())
-        else:               # `@ \` + newline + expression: find the `@` on an earlier line
-            k = sl - 1
-            while k >= 0 and '@' not in lines[k]:
-                k -= 1
-            if k >= 0:
-                sl, sc = k, len(lines[k][:lines[k].rindex('@')].encode())
+        # the `@` token before the decorator expression (which may be parenthesized or on a later line)
+        dpos = (sl, _char_col(lines[sl], sc))
+        ats = [t for t in _toks_cached('\n'.join(lines)) if t.type == tokenize.OP and t.string == '@' and (t.start[0] - 1, t.start[1]) < dpos]
+        if ats:
+            sl, sc = ats[-1].start[0] - 1, len(lines[ats[-1].start[0] - 1][:ats[-1].start[1]].encode())
     s = (sl, _char_col(lines[sl], sc))
     e = (n.end_lineno - 1, _char_col(lines[n.end_lineno - 1], n.end_col_offset))
     return s, e
@@ -403,7 +467,7 @@ def run_edit(src, edit):
         extra_lines = set()
     if kind == 'expr':
         if idx > 0:
-            extra_lines.update(range(_node_span(lines, lst[idx - 1])[1][0], s[0] + 1))
+            extra_lines.update(range(_node_span(lines, lst[idx - 1])[0][0], s[0] + 1))
         nxt = idx + 1 if op != 'insert' else idx
         if nxt < len(lst):
             extra_lines.update(range(e[0], _node_span(lines, lst[nxt])[1][0] + 1))
@@ -455,7 +519,20 @@ def run_edit(src, edit):
         return item
     new_comments = {t.string for t in toks(edit.get('code') or '') if t.type == tokenize.COMMENT} if edit.get('code') else set()
     tv = opts.get('trivia', True)
-    v = judge(src, new_src, s, e, kind, op, tv, compound, new_comments, extra_lines, extra_seps)
+    gap = None
+    if op == 'delete' and edit['pkind'] == 'Tuple' and idx == 0 and len(lst) > 1:
+        ts0 = (parent.lineno - 1, _char_col(lines[parent.lineno - 1], parent.col_offset))
+        if lines[ts0[0]][ts0[1]:ts0[1] + 1] != '(':
+            gap = _node_span(lines, lst[1])[0]
+    new_literals = []
+    if edit.get('code'):
+        ct = [t for t in toks(edit['code']) if t.type not in NONSIG]
+        new_literals = [t.string for k, t in enumerate(ct) if t.type == tokenize.STRING and '\n' in t.string and k and ct[k - 1].string == '=']
+    allow_pos = ()
+    if edit.get('reindent'):
+        allow_pos = {_node_span(lines, lst[0])[0]}          # the `elif` keyword becomes `else:` + `if`
+    v = judge(src, new_src, s, e, kind, op, tv, compound, new_comments, extra_lines, extra_seps, gap, allow_pos,
+              bool(edit.get('reindent')), new_literals)
     if v is None:
         item['outcome'] = 'untokenizable'
         return item
@@ -468,7 +545,7 @@ def run_edit(src, edit):
 def edit_cases(arg):
     src0, seed, per = arg
     rng = random.Random(seed)
-    src = renumber_comments(src0)
+    src = renumber_comments(inject_literals(src0, rng))
     if src is None:
         return []
     try:
@@ -480,13 +557,31 @@ def edit_cases(arg):
     out = []
     rng.shuffle(tg)
     lines = src.split('\n')
-    for (kind, p, pkind, fld, i, n, c) in tg[:per]:
+
+    def is_elif(t):
+        kind, p, pkind, fld, i, n, c = t
+        return pkind == 'If' and fld == 'orelse' and isinstance(c, ast.If) and n == 1 and \
+            lines[c.lineno - 1].encode()[c.col_offset:].decode(errors='ignore').startswith('elif')
+
+    # an `elif` chain: inserting there legitimately re-indents the chain (elif -> else: + if); every such place is edited and
+    # judged by tokens only (multi-line literals inside the re-indented block must arrive byte for byte)
+    for t in [t for t in tg if is_elif(t)][:4]:
+        kind, p, pkind, fld, i, n, c = t
         path = _path(tree, p)
         if path is None:
             continue
-        if pkind == 'If' and fld == 'orelse' and isinstance(c, ast.If) and n == 1 and \
-                lines[c.lineno - 1].encode()[c.col_offset:].decode(errors='ignore').startswith('elif'):
-            continue                # an `elif` chain: inserting / replacing there legitimately re-indents the chain
+        edit = {'op': 'insert', 'kind': 'stmt', 'path': path, 'pkind': pkind, 'field': fld, 'idx': rng.choice([0, 1, 1]),
+                'code': rng.choice(['done = True  # newd', 'nn()']), 'trivia': rng.choice([True, False, 'all']), 'options': {},
+                'reindent': True}
+        try:
+            out.append(run_edit(src, edit))
+        except Exception as ex:
+            out.append({'src': src, 'edit': edit, 'op': 'insert', 'field': pkind + '.' + fld, 'violations': [], 'changed': False,
+                        'outcome': 'harness:' + type(ex).__name__ + ':' + str(ex)[:80], 'bad_spans': []})
+    for (kind, p, pkind, fld, i, n, c) in [t for t in tg if not is_elif(t)][:per]:
+        path = _path(tree, p)
+        if path is None:
+            continue
         ops = ['replace', 'insert'] + (['delete'] if n >= 2 else [])
         if pkind in ('Import', 'ImportFrom', 'With', 'MatchSequence') or fld in ('handlers', 'cases'):
             ops = [o for o in ops if o == 'delete'] or ['delete']
@@ -528,4 +623,23 @@ def edit_cases(arg):
         except Exception as ex:
             out.append({'src': src, 'edit': edit, 'op': op, 'field': pkind + '.' + fld, 'violations': [], 'changed': False,
                         'outcome': 'harness:' + type(ex).__name__ + ':' + str(ex)[:80], 'bad_spans': []})
+    return out
+
+
+def classify(it):
+    """-> [(signature, what, witness)] for one executed edit (shared by the sweep and by replay)"""
+    out = []
+    bad = it.get('bad_spans', [])
+    if bad:
+        # `_put_src` called with an unordered span (end_ln = ln - 1, or -1 which wraps to the last line): the hypothesis
+        # ValidSpan of the theorems is violated by the caller; text outside the element is at risk. One signature.
+        out.append((f'C04|{it["op"]}|stmt|put_src-unordered-span',
+                    f'_put_src called with unordered span {bad[0][:4]} ({bad[0][4]} lines) during {it["op"]} with trivia='
+                    f'{it["edit"].get("trivia")!r}: text outside the edited element is destroyed or duplicated',
+                    {'src': it['src'], 'edit': it['edit'], 'after': it.get('after'), 'span': bad[0],
+                     'oracle': [v['cls'] for v in it['violations']]}))
+        return out
+    for v in it['violations']:
+        out.append((f'C04|{it["op"]}|{it["field"]}|{v["cls"]}', v['what'],
+                    {'src': it['src'], 'edit': it['edit'], 'after': it.get('after'), 'detail': v.get('detail')}))
     return out
